@@ -49,6 +49,19 @@ def witness_search(tier, seed):
                 return dict(input=f"{k}={v!r}", detail="not auto-detected as SM")
             if auto != sf or list(auto.items()) != list(sf.items()) or str(auto) != text:
                 return dict(input=f"{k}={v!r} extradata={extra!r}", detail=f"simfile.loads(str(sf)) is not the simfile: {k} = {auto.get(k)!r}")
+    # the same objects serialized again after an edit: every serialization reflects the object as it is now
+    sf = SMSimfile.blank()
+    ch = SMChart.blank()
+    sf.charts.append(ch)
+    for step, edit in enumerate((lambda: None, lambda: setattr(ch, "extradata", ["late"]), lambda: ch.extradata.append("more"), lambda: setattr(ch, "extradata", None),
+                                 lambda: setattr(ch, "description", "d2"), lambda: sf.__setitem__("TITLE", "t2"), lambda: sf.charts.append(SMChart.blank()))):
+        edit()
+        text = str(sf)
+        back = SMSimfile(string=text)
+        if list(back.items()) != list(sf.items()) or len(back.charts) != len(sf.charts) or \
+                any(list(a.items()) != list(b.items()) or (a.extradata or None) != (b.extradata or None) for a, b in zip(sf.charts, back.charts)):
+            return dict(input=f"one simfile serialized again after edit #{step} (extradata / field / property / chart list edits in turn)",
+                        detail=f"the text does not parse back to the simfile as it is now; chart 0 extradata is {ch.extradata!r}, parsed {back.charts[0].extradata!r}")
     return None
 
 from pyvc.xcheck import MsdTextProbe   # noqa: E402
